@@ -138,9 +138,11 @@ def main(pid, argv):
         e2e.append((payload, rs))
     if not ck.replay or json.load(open(ck.replay))["failing"]["kind"] != "wire-ops":
         for mode, frame in (("upgrade-service", b'{"method":"x.y.Up","upgrade":true}'), ("upgrade-client", b'{"parameters":{}}')):
-            lines = ["%s %s %d" % (frame.hex(), p.hex(), rs) for p, rs in e2e]
+            var = "split" if mode == "upgrade-service" else "gc"
+            lines = ["%s %s %d" % (frame.hex(), p.hex(), rs) for p, rs in e2e] + ["%s %s %d %s" % (frame.hex(), p.hex(), rs, var) for p, rs in e2e[:: 3]]
+            e2e_all = e2e + e2e[:: 3]
             rc, out, err = V.run_lines([binp, mode], lines, timeout=900)
-            for (p, rs), o, l in zip(e2e, out, lines):
+            for (p, rs), o, l in zip(e2e_all, out, lines):
                 ck.evaluations += 1
                 ck.count("e2e:" + mode)
                 ck.distinct.add(mode + l)
